@@ -237,10 +237,11 @@ def maxFn : List AVal → Option AVal
       | none => none
       | some (m, v) => some ⟨mn, mx, m, v⟩
 
-/-- `_compute_constraints_of_bound_function`. -/
+/-- `_compute_constraints_of_bound_function`: a finite bound is a constant; an infinite
+    one says nothing (unbounded, modulus 1) — never a "constant infinity". -/
 def boundFn (upper : Bool) (a : AVal) : AVal :=
   let v := if upper then a.max else a.min
-  ⟨v, v, .inf, v⟩
+  if v.isInf then ⟨.negInf, .posInf, .fin 1, .fin 0⟩ else ⟨v, v, .inf, v⟩
 
 inductive LeafKind where
   | uint | sint | bcd
@@ -318,8 +319,10 @@ inductive AType where
 /-- Expression trees.  `vref e` is a `field_reference` to a virtual field whose
     `read_transform` is `e`: the code copies the type of `e`, `ir_util.constant_value` says
     "unknown", the 64-bit gate and the back end see a leaf (the definition `e` is gated and
-    compiled as a separate top-level expression).  `$present(f)` is represented by the
-    existence condition itself.  `cref` is a `constant_reference` to a virtual field, which
+    compiled as a separate top-level expression).  `present a c` is `$present(a)` for a field `a`
+    whose existence condition is `c`: the code copies the type of `c`, `constant_value` says
+    "unknown" (its argument is a field reference), the gate sees a function node over the
+    field reference `a`, the back end emits `has_a()`.  `cref` is a `constant_reference` to a virtual field, which
     differs only for `constant_value`. -/
 inductive Expr where
   | const (v : Int)
@@ -337,6 +340,7 @@ inductive Expr where
   | lower (e : Expr)
   | cref (e : Expr)
   | vref (e : Expr)
+  | present (a c : Expr)
   deriving Repr, Inhabited
 
 /-- an environment: values of integer leaves, boolean leaves, enum leaves, by id -/
@@ -424,12 +428,12 @@ def cvMax (vs : List CV) : CV :=
     | some l => match maxInts l with | some m => .val (.int m) | none => .crash
     | none => .crash
 
-/-- `$upper_bound`/`$lower_bound` are missing from the `functions` table: KeyError as
-    soon as the operand is known. -/
-def cvBound (a : CV) : CV :=
-  match a with
-  | .unknown => .unknown
-  | _ => .crash
+/-- `$upper_bound`/`$lower_bound` in `ir_util.constant_value`: read from the node's own type
+    annotation (like constant references): known iff that is a finite constant; the
+    operand's `constant_value` is not computed. -/
+def cvBound : Option AType → CV
+  | some (.int ⟨_, _, .inf, .fin v⟩) => .val (.int v)
+  | _ => .unknown
 
 def atypeConstCV : Option AType → CV
   | some (.int ⟨_, _, .inf, .fin v⟩) => .val (.int v)
@@ -514,10 +518,11 @@ def cv : Expr → CV
   | .bin op l r => cvBin op (cv l) (cv r)
   | .choice c t f => cvChoice (cv c) (cv t) (cv f)
   | .max args => cvMax (cvList args)
-  | .upper e => cvBound (cv e)
-  | .lower e => cvBound (cv e)
+  | .upper e => cvBound (match abs e with | some a => absBound true a | none => none)
+  | .lower e => cvBound (match abs e with | some a => absBound false a | none => none)
   | .cref e => atypeConstCV (abs e)
   | .vref _ => .unknown
+  | .present _ _ => .unknown
 def cvList : List Expr → List CV
   | [] => []
   | e :: es => cv e :: cvList es
@@ -547,6 +552,7 @@ def abs : Expr → Option AType
   | .lower e => match abs e with | some a => absBound false a | none => none
   | .cref e => abs e
   | .vref e => abs e
+  | .present _ c => abs c
 def absList : List Expr → Option (List AType)
   | [] => some []
   | e :: es =>
@@ -679,6 +685,10 @@ def annot : Expr → Option ATree
     match abs e with
     | some ty => if isConstType ty then some (.node false ty []) else none
     | none => none
+  | .present a c =>
+    match abs c, annot a with
+    | some ty, some t => some (.node true ty [t])
+    | _, _ => none
   | e => match abs e with
     | some ty => some (.node false ty [])
     | none => none
@@ -703,6 +713,9 @@ def vrefsGated : Expr → Bool
   | .cref e => vrefsGated e
   | .vref e => vrefsGated e &&
       (match annot e with | some t => decide (gate t = some []) | none => false)
+  -- the existence condition is a top-level expression of its own, gated and compiled separately
+  | .present _ c => vrefsGated c &&
+      (match annot c with | some t => decide (gate t = some []) | none => false)
   | _ => true
 def vrefsGatedList : List Expr → Bool
   | [] => true
